@@ -1,4 +1,5 @@
 import CohdlVerif.Lemmas.C03Lemmas
+import CohdlVerif.Lemmas.C03Conc
 
 /-! C03 - property theorems (declared with their full name `C03.<name>`; helper lemmas are in Lemmas/C03Lemmas.lean).
 
@@ -223,3 +224,74 @@ example :
     let body := Stmt.seq (.call (.seq (.ite c0 (.ret 1 (.const 11)) .skip) (.ret 1 (.const 22))))
                          (.assign .next ⟨7, .const 0, 0, 8⟩ (.tmp 1))
     eval (.rd .sig 7 (.const 0) 0 8) (procStep [] (lowerSeq body) s (fun _ => none)) = 11 := by decide
+
+/-! ## a concurrent context, and everything hoisted with `cohdl.always`, continuously drives its targets with the current
+    value of its operands -/
+
+/-- After `settle` (accepted = acyclic dependencies, one driver per object) every concurrently driven location holds its
+    expression evaluated ON THE SETTLED STATE - for all values of the operands -, nothing else changed, and no assignment has
+    anything left to do (`drive c s1 = s1`: no further event). -/
+theorem C03.concurrent_drives_current (cs : List CA) (s s1 : St) (h : settle cs s = some s1) :
+    (∀ c ∈ cs, ∀ l : Loc, c.covers l = true → s1.sig l = (eval c.e s1).testBit (l.2.2 - c.lo)) ∧
+    (∀ l : Loc, (∀ c ∈ cs, c.covers l = false) → s1.sig l = s.sig l) ∧
+    s1.var = s.var ∧
+    (∀ c ∈ cs, drive c s1 = s1) := by
+  obtain ⟨ord, hmem, hw, rfl⟩ := settle_eq_some h
+  have S := Sol_of_mem_iff hmem (settleOrder_sol ord s hw)
+  refine ⟨S.fix, S.frame, S.var, fun c hc => ?_⟩
+  have hsig : (drive c (settleOrder ord s)).sig = (settleOrder ord s).sig := by
+    funext l
+    cases hcov : c.covers l with
+    | true => rw [drive_sig_covered c _ l hcov, S.fix c hc l hcov]
+    | false => exact drive_sig_other c _ l hcov
+  show ({ (settleOrder ord s) with sig := _ } : St) = _
+  cases hS : settleOrder ord s
+  simp only [St.mk.injEq, and_true]
+  rw [hS] at hsig
+  exact hsig
+
+/-- non-vacuity: `q1 <= q0 + 1`, `q0 <= x + 2` listed against their dependency order settle to q0 = 7, q1 = 8 for x = 5;
+    a combinational loop is rejected -/
+example :
+    let s : St := ⟨fun l => (5 : Nat).testBit l.2.2 && l.1 == 4, fun _ => false, fun _ => none, fun _ => 0⟩
+    let rd (o : Nat) := Expr.rd .sig o (.const 0) 0 8
+    let cs : List CA := [⟨20, 0, 0, 8, .add 8 (rd 19) (.const 1)⟩, ⟨19, 0, 0, 8, .add 8 (rd 4) (.const 2)⟩]
+    ((settle cs s).map (fun t => (eval (rd 19) t, eval (rd 20) t)) = some (7, 8)) ∧
+    ((settle [⟨19, 0, 0, 8, .add 8 (rd 19) (.const 1)⟩] s).isNone = true) := by decide
+
+/-- The settled state does not depend on the order in which the assignments are listed or evaluated: two listings of the same
+    assignments settle to the same state, and ANY two topological evaluation orders reach the same state. -/
+theorem C03.settle_order_independent (cs cs' : List CA) (s : St) (hsame : ∀ c, c ∈ cs ↔ c ∈ cs') :
+    (∀ s1 s2, settle cs s = some s1 → settle cs' s = some s2 → s1 = s2) ∧
+    (wellOrdered cs = true → wellOrdered cs' = true → settleOrder cs s = settleOrder cs' s) := by
+  constructor
+  · intro s1 s2 h1 h2
+    obtain ⟨o1, m1, w1, rfl⟩ := settle_eq_some h1
+    obtain ⟨o2, m2, w2, rfl⟩ := settle_eq_some h2
+    have hm : ∀ c, c ∈ o2 ↔ c ∈ o1 := fun c => ((m2 c).trans (hsame c).symm).trans (m1 c).symm
+    exact sol_unique o1 s _ _ w1 (settleOrder_sol o1 s w1) (Sol_of_mem_iff hm (settleOrder_sol o2 s w2))
+  · intro w1 w2
+    exact sol_unique cs s _ _ w1 (settleOrder_sol cs s w1)
+      (Sol_of_mem_iff (fun c => (hsame c).symm) (settleOrder_sol cs' s w2))
+
+example :
+    let rd (o : Nat) := Expr.rd .sig o (.const 0) 0 8
+    wellOrdered [⟨19, 0, 0, 8, .add 8 (rd 4) (.const 2)⟩, ⟨20, 0, 0, 8, .add 8 (rd 19) (.const 1)⟩] = true := by decide
+
+/-- An expression hoisted out of a sequential context (`with cohdl.always: t = e`, emitted as `sig_t <= e` in a concurrent
+    block) has, wherever the sequential body reads it during an activation that starts from the settled state, exactly the
+    value the expression itself has at that point (truncated to the width of the hoisted signal). -/
+theorem C03.always_equals_inline (cs : List CA) (s st : St) (h : settle cs s = some st) (c : CA) (hc : c ∈ cs)
+    (hs : sigOnly c.e = true) (p : Stmt) :
+    eval (.rd .sig c.obj (.const c.elem) c.lo c.w) (exec p st).1 = eval c.e (exec p st).1 % 2 ^ c.w := by
+  have hold := C03.signal_read_sees_old p st
+  rw [hold.2 c.e hs, hold.2 (.rd .sig c.obj (.const c.elem) c.lo c.w) (by simp [sigOnly])]
+  have hfix := (C03.concurrent_drives_current cs s st h).1 c hc
+  simp only [eval, store]
+  rw [← bitsToNat_testBit]
+  apply bitsToNat_congr
+  intro b hb
+  rw [hfix (c.obj, c.elem, c.lo + b) (by simp [CA.covers, inRange, hb])]
+  simp
+
+example : sigOnly (Expr.add 8 (.rd .sig 4 (.const 0) 0 8) (.rd .sig 11 (.const 0) 0 8)) = true := by decide
